@@ -7,6 +7,7 @@ CONSTANTS
   MaxByte = 131
   MaxMem = 515
   Large = {1000, 1027, 4099}
+  Huge = {}
   NRand = 4
   FullRun = 70
 INIT Init
